@@ -315,3 +315,72 @@ func (c *PCond) String() string {
 	}
 	return Leg{Field: c.Field, Op: c.Op, S: c.S, I: c.I}.String()
 }
+
+// evalFiltPartial evaluates a filter on a body that may lack fields: a leg on a missing
+// field is false ("if the path doesn't exist, the filter returns false" — proto, TreasureFilter.BytesFieldPath).
+func evalFiltPartial(f *Filt, b Body, has fieldSet) bool {
+	if f == nil {
+		return true
+	}
+	leg := func(l Leg) bool {
+		switch l.Field {
+		case "status":
+			if !has.St {
+				return false
+			}
+		case "owner":
+			if !has.Ow {
+				return false
+			}
+		case "n":
+			if !has.N {
+				return false
+			}
+		}
+		return evalLeg(l, b)
+	}
+	if f.Or {
+		for _, l := range f.Legs {
+			if leg(l) {
+				return true
+			}
+		}
+		for i := range f.Subs {
+			if evalFiltPartial(&f.Subs[i], b, has) {
+				return true
+			}
+		}
+		return false
+	}
+	for _, l := range f.Legs {
+		if !leg(l) {
+			return false
+		}
+	}
+	for i := range f.Subs {
+		if !evalFiltPartial(&f.Subs[i], b, has) {
+			return false
+		}
+	}
+	return true
+}
+
+// applyOpsPartial applies ops and records which fields exist afterwards (SET creates the
+// field; INC on a missing field creates it with the delta).
+func applyOpsPartial(ops []POp, b Body, has fieldSet) (Body, fieldSet) {
+	for _, o := range ops {
+		switch o.Kind {
+		case "set-status":
+			b.Status, has.St = o.S, true
+		case "set-owner":
+			b.Owner, has.Ow = o.S, true
+		case "inc-n":
+			if !has.N {
+				b.N = 0
+			}
+			b.N += o.I
+			has.N = true
+		}
+	}
+	return b, has
+}
